@@ -83,6 +83,9 @@ const MATE_IN_ONE: &[&str] = &[
     "r3k2r/p6p/5q2/3pP3/8/8/P6P/R3K2R w - d6 0 1",
     "r3k2r/p6p/8/8/3Pp3/5Q2/P6P/R3K2R b - d3 0 1",
     "4k3/8/8/3pP3/8/8/8/4K3 w - d6 0 1",
+    // a quiet mate in one while every capture loses to a capturing mate (captures are searched first)
+    "6k1/5ppp/8/1p6/P5q1/8/5PPP/3R2K1 w - - 0 30",
+    "3r2k1/5ppp/8/p5Q1/1P6/8/5PPP/6K1 b - - 0 30",
     // stalemate tricks and under-promotion mates
     "5k2/5P2/5K2/8/8/8/8/8 w - - 0 1",
     "7k/5P2/6K1/8/8/8/8/8 w - - 0 1",
@@ -106,6 +109,20 @@ pub fn run(out: &mut dyn Write, rng: &mut Rng, n: usize, k_max: u64) {
             roots.push(b);
         }
     }
+    // the same mate-in-one roots with the half-move clock just below the 100-half-move draw: a quiet mating move
+    // brings the clock to 99 / 100 and must still be reported as mate (mate is tested before the draw by clock)
+    let mut clock_roots = 0;
+    for s in MATE_IN_ONE.iter() {
+        let f: Vec<&str> = s.split(' ').collect();
+        if f.len() == 6 {
+            for c in ["98", "99"] {
+                if let Ok(b) = format!("{} {} {} {} {} 80", f[0], f[1], f[2], f[3], c).parse::<Board>() {
+                    roots.push(b);
+                    clock_roots += 1;
+                }
+            }
+        }
+    }
     positions(rng, n, |_r, b, _l, _| roots.push(*b));
     let mut terminal = 0;
     let mut mates1 = 0;
@@ -118,7 +135,7 @@ pub fn run(out: &mut dyn Write, rng: &mut Rng, n: usize, k_max: u64) {
             mates1 += 1;
         }
         // every root: the small k exhaustively, then a ladder, then two random values
-        let ks: Vec<u64> = if i < MATE_IN_ONE.len() + CORPUS.len() {
+        let ks: Vec<u64> = if i < MATE_IN_ONE.len() + CORPUS.len() + clock_roots {
             ladder(k_max)
         } else {
             let mut v = vec![0, 1, 2, l.len() as u64, l.len() as u64 + 1, l.len() as u64 + 2];
